@@ -60,15 +60,17 @@ EXTENDS Integers, Sequences, FiniteSets, TLC, Json
 
 CONSTANTS N,           \* maximal number of modules
           K,           \* maximal number of statements of one module
-          EntryKinds,  \* kinds the entry module (m1) may have: subset of {"esm","cjs"}
-          Kinds,       \* kinds any other module may have: subset of {"esm","cjs","json"}
+          EntryKinds,  \* kinds the entry module (m1) may have: subset of {"esm","esmb","cjs"}
+          Kinds,       \* kinds any other module may have: subset of {"esm","esmb","cjs","json"}
+                       \* ("esmb": an ES module that is not in Node's interop mode for a bundler, see Babel below)
           EsmOps,      \* statement alphabet of ES modules (subset of AllEsmOps)
+          InnerEsmOps, \* statement alphabet of the ES modules other than the entry point ({} = EsmOps)
           CjsOps,      \* statement alphabet of CommonJS modules (subset of AllCjsOps)
           Names,       \* names of exported variables, subset of {"x","y","z"}
           MinLen,      \* minimal number of statements of a module (1; larger to bias -simulate towards big graphs)
           Guided,      \* BOOLEAN: generation satisfies pending imports first (for -simulate: fewer dead ends)
           Emit,        \* BOOLEAN: print a CASE record for every finished run
-          Leaves,      \* preset leaf modules a statement may mention: subset of {"Lesm","Lcjs","Ldyn"}
+          Leaves,      \* preset leaf modules a statement may mention: subset of {"Lesm","Lcjs","Ldyn","Lmark","Lmarkx"}
           NGen,        \* maximal number of generated (esm/cjs, non-preset) modules
           Tot,         \* maximal total number of statements of the generated modules
           Mode         \* "full": generate and run | "gen": generate only (GRAPH records) | "run": run the graphs of c02_graphs.ndjson
@@ -77,10 +79,10 @@ AllEsmOps == {"probe", "let", "set", "fn", "call", "rd", "rns", "imp", "def", "r
 AllCjsOps == {"probe", "xset", "mexp", "esm", "req", "dyn", "throw"}
 
 ASSUME /\ N \in 1..5 /\ K \in 1..6
-       /\ EntryKinds \subseteq {"esm", "cjs"} /\ Kinds \subseteq {"esm", "cjs", "json"}
-       /\ EsmOps \subseteq AllEsmOps /\ CjsOps \subseteq AllCjsOps
+       /\ EntryKinds \subseteq {"esm", "esmb", "cjs"} /\ Kinds \subseteq {"esm", "esmb", "cjs", "json"}
+       /\ EsmOps \subseteq AllEsmOps /\ CjsOps \subseteq AllCjsOps /\ InnerEsmOps \subseteq EsmOps
        /\ Names \subseteq {"x", "y", "z"}
-       /\ Leaves \subseteq {"Lesm", "Lcjs", "Ldyn"} /\ NGen \in 1..5 /\ Tot \in 1..30
+       /\ Leaves \subseteq {"Lesm", "Lcjs", "Ldyn", "Lmark", "Lmarkx"} /\ NGen \in 1..5 /\ Tot \in 1..30
        /\ Mode \in {"full", "gen", "run"}
 
 VARIABLES phase,   \* "gen" | "run" | "done"
@@ -117,15 +119,36 @@ NM == Len(kinds)
 \*   Lcjs  a CommonJS module the lexer can read:  probe; exports.x = ...
 \*   Ldyn  an ES module whose export set is only known at run time:
 \*           probe; export * from <the Lcjs leaf that follows it>
+\*   Lmark  a CommonJS module that carries the __esModule marker and a
+\*          "default" property (what Babel/TypeScript emit for an ES module):
+\*            probe; exports.__esModule = true; exports.default = ...; exports.x = ...
+\*   Lmarkx the same without a "default" property
 \* `kinds` holds the preset name; Kind(m) is the module's real kind.
-PresetKinds == {"Lesm", "Lcjs", "Ldyn"}
+\*
+\* Interop mode of an importer.  Node gives every ES importer of a CommonJS
+\* module default = module.exports.  A bundler additionally accepts ES syntax
+\* in a plain ".js" file that no package.json declares a module ("esmb"); for
+\* such an importer esbuild documents the Babel reading of a CommonJS module
+\* that carries the __esModule marker (default = exports.default).  Node 20
+\* loads such a file as an ES module too (syntax detection), with Node's
+\* shape, so the property's reference exists for everything an "esmb" module
+\* does EXCEPT its own observation of the default export / namespace of a
+\* marked CommonJS module: graphs in which an "esmb" module makes that
+\* observation are outside the family (BabelOK).  What the family keeps is the
+\* interaction: importers of BOTH modes of one CommonJS module in one graph,
+\* in both evaluation orders, the node-mode importer being judged.
+PresetKinds == {"Lesm", "Lcjs", "Ldyn", "Lmark", "Lmarkx"}
+GenKinds == {"esm", "esmb", "cjs"}       \* kinds whose body is generated
 IsPreset(m) == kinds[m] \in PresetKinds
-RealKind(k) == CASE k \in {"Lesm", "Ldyn"} -> "esm" [] k = "Lcjs" -> "cjs" [] OTHER -> k
+RealKind(k) == CASE k \in {"Lesm", "Ldyn", "esmb"} -> "esm" [] k \in {"Lcjs", "Lmark", "Lmarkx"} -> "cjs" [] OTHER -> k
+Babel(m) == kinds[m] = "esmb"
 Kind(m) == RealKind(kinds[m])
 PresetBody(m) ==
   CASE kinds[m] = "Lesm" -> <<St("probe", 0, ""), St("let", 0, "x")>>
     [] kinds[m] = "Lcjs" -> <<St("probe", 0, ""), St("xset", 0, "x")>>
     [] kinds[m] = "Ldyn" -> <<St("probe", 0, ""), St("star", m + 1, "")>>
+    [] kinds[m] = "Lmark" -> <<St("probe", 0, ""), St("esm", 0, ""), St("xset", 0, "default"), St("xset", 0, "x")>>
+    [] kinds[m] = "Lmarkx" -> <<St("probe", 0, ""), St("esm", 0, ""), St("xset", 0, "x")>>
     [] OTHER -> <<>>
 Body(m) == IF m <= Len(bodies) THEN bodies[m]
            ELSE IF m <= Len(kinds) /\ IsPreset(m) THEN PresetBody(m)
@@ -265,15 +288,27 @@ Shapes(ops) ==
 
 GM == Len(bodies) + 1      \* the module being generated
 
-\* final well-formedness: everything links
-Links ==
-  \A m \in 1..NM : Kind(m) = "esm" =>
+\* an "esmb" module does not itself observe the default export / namespace
+\* object of a CommonJS module that carries the __esModule marker (the one
+\* observation for which esbuild documents a shape that differs from Node's)
+Marked(t) == Kind(t) = "cjs" /\ HasOpAny(Body(t), "esm")
+BabelOK ==
+  \A m \in 1..NM : Babel(m) =>
     \A i \in Idx(m) :
       LET s == Body(m)[i] IN
-        CASE s.op = "rd"   -> Resolvable(s.t, s.x)
-          [] s.op = "call" -> Resolve(s.t, "f").k = "esm"
-          [] s.op = "rex"  -> Resolvable(m, s.x)
-          [] OTHER -> TRUE
+        (s.t # 0 /\ Marked(s.t)) =>
+           ~(s.op \in {"rns", "starns", "dyn"} \/ (s.op \in {"rd", "rex"} /\ s.x = "default"))
+
+\* final well-formedness: everything links
+Links ==
+  /\ BabelOK
+  /\ \A m \in 1..NM : Kind(m) = "esm" =>
+       \A i \in Idx(m) :
+         LET s == Body(m)[i] IN
+           CASE s.op = "rd"   -> Resolvable(s.t, s.x)
+             [] s.op = "call" -> Resolve(s.t, "f").k = "esm"
+             [] s.op = "rex"  -> Resolvable(m, s.x)
+             [] OTHER -> TRUE
 
 \* data files and preset leaves have no generated body
 RECURSIVE SkipData(_)
@@ -300,6 +335,7 @@ InitRun == [
   dyn     |-> [state |-> "none", id |-> "", t |-> 0],
   trace   |-> <<>>,
   runs    |-> [m \in Mods |-> 0],          \* how often the body of m started
+  ord     |-> <<>>,                        \* the modules in the order in which their bodies started
   unwound |-> [m \in Mods |-> 0],          \* how often a CommonJS body was abandoned by an error
   threw   |-> FALSE,                       \* loading the entry point threw
   rdU     |-> FALSE,                       \* a read met an uninitialised binding
@@ -368,25 +404,25 @@ Provides(s, need) ==
   \/ s.op = "star" /\ need \cap Names # {}
 
 \* number of modules whose body is generated
-GenCount == Cardinality({m \in 1..NM : kinds[m] \in {"esm", "cjs"}})
+GenCount == Cardinality({m \in 1..NM : kinds[m] \in GenKinds})
 
 \* statements generated so far, and generated modules that still need a body
 RECURSIVE SumLen(_, _)
-SumLen(bs, i) == IF i > Len(bs) THEN 0 ELSE (IF kinds[i] \in {"esm", "cjs"} THEN Len(bs[i]) ELSE 0) + SumLen(bs, i + 1)
+SumLen(bs, i) == IF i > Len(bs) THEN 0 ELSE (IF kinds[i] \in GenKinds THEN Len(bs[i]) ELSE 0) + SumLen(bs, i + 1)
 Used == SumLen(bodies, 1) + Len(cur)
-Waiting == Cardinality({m \in (GM + 1)..NM : kinds[m] \in {"esm", "cjs"}})
+Waiting == Cardinality({m \in (GM + 1)..NM : kinds[m] \in GenKinds})
 
 GenAdd ==
   /\ phase = "gen" /\ Len(cur) < K
   /\ Used + 1 + Waiting <= Tot
   /\ LET roomForModule == GenCount < NGen /\ Used + 2 + Waiting <= Tot IN
-     \E s \in Shapes(IF Kind(GM) = "esm" THEN EsmOps ELSE CjsOps) :
+     \E s \in Shapes(IF Kind(GM) = "esm" THEN (IF GM > 1 /\ InnerEsmOps # {} THEN InnerEsmOps ELSE EsmOps) ELSE CjsOps) :
        /\ LocalOK(Kind(GM), cur, s)
        /\ (Guided /\ Needed # {}) => Provides(s, Needed)
        /\ IF s.t = NM + 1
           THEN \E k \in Kinds \cup Leaves :
                  /\ Compatible(s.op, s.x, RealKind(k))
-                 /\ (k \in {"esm", "cjs"}) => roomForModule
+                 /\ (k \in GenKinds) => roomForModule
                  /\ (k = "Ldyn") => NM + 2 <= N
                  /\ kinds' = IF k = "Ldyn" THEN kinds \o <<"Ldyn", "Lcjs">> ELSE Append(kinds, k)
           ELSE /\ (s.t # 0 => Compatible(s.op, s.x, Kind(s.t)))
@@ -524,7 +560,7 @@ Push(r, t) ==
          \* a CommonJS module whose body threw: whether it runs again depends on
          \* which loader loaded it first (require cache vs ESM module map): not generated
          IF r.unwound[t] > 0 THEN Exclude(r, "cjs-rerun") ELSE
-         [r EXCEPT !.st[t] = "evaluating", !.runs[t] = @ + 1, !.cx[t] = EmptyCx, !.repl[t] = FALSE,
+         [r EXCEPT !.st[t] = "evaluating", !.runs[t] = @ + 1, !.ord = Append(@, t), !.cx[t] = EmptyCx, !.repl[t] = FALSE,
                    !.stack = Append(@, [m |-> t, ph |-> "body", i |-> 1])]
     [] OTHER -> [r EXCEPT !.st[t] = "evaluated"]
 
@@ -655,7 +691,7 @@ EvalDep ==
   /\ LET f == Top(rs)
          req == Requested(f.m) IN
        rs' = IF f.i > Len(req)
-             THEN [rs EXCEPT !.stack[Len(rs.stack)] = [m |-> f.m, ph |-> "body", i |-> 1], !.runs[f.m] = @ + 1]
+             THEN [rs EXCEPT !.stack[Len(rs.stack)] = [m |-> f.m, ph |-> "body", i |-> 1], !.runs[f.m] = @ + 1, !.ord = Append(@, f.m)]
              ELSE StepDep(rs, f, req[f.i])
   /\ UNCHANGED <<phase, kinds, bodies, cur>>
 
@@ -742,7 +778,77 @@ AmbStarCjs ==
 \* copied when its body runs (another member of the cycle may look earlier)
 CycDyn ==
   \E m \in 1..NM : DynFallback(m) /\ \E j \in DOMAIN Requested(m) : m \in Closure(Requested(m)[j])
+\* the members of such a cycle (the modules that can look too early)
+CycDynReaders ==
+  {m \in 1..NM : Kind(m) = "esm" /\
+     \E d \in 1..NM : /\ DynFallback(d)
+                       /\ \E j \in DOMAIN Requested(d) : d \in Closure(Requested(d)[j])
+                       /\ d \in Closure(m) /\ m \in Closure(d)}
+\* The same limitation seen after the fact.  A bundle copies the names of an
+\* "export * from t" whose set is only known at run time when the body of the
+\* re-exporting module runs; natively they are fixed at link time.  In an
+\* export-star cycle the body of t may run AFTER the body of the module that
+\* re-exports it (the cycle is cut there), then the copy finds nothing, for
+\* good.  CopyReach(r, m): the CommonJS modules whose names reach m over
+\* export-star edges a -> b such that b's body started before a's;
+\* LateCopy: some ES module does not get every StarCjs module that way.  Used
+\* only to classify a disagreement as the known limitation, never to accept one.
+Pos(r, m) == IF \E i \in DOMAIN r.ord : r.ord[i] = m THEN CHOOSE i \in DOMAIN r.ord : r.ord[i] = m ELSE 99
+RECURSIVE CopyReach(_, _, _)
+CopyReach(r, m, seen) ==
+  IF Kind(m) = "cjs" THEN {m}
+  ELSE IF Kind(m) # "esm" \/ m \in seen THEN {}
+  ELSE UNION {CopyReach(r, t, seen \cup {m}) :
+                t \in {Body(m)[i].t : i \in {j \in Idx(m) : Body(m)[j].op = "star" /\
+                          (Kind(Body(m)[j].t) # "esm" \/ Pos(r, Body(m)[j].t) < Pos(r, m))}}}
+LateCopy(r) == \E m \in 1..NM : Kind(m) = "esm" /\ r.runs[m] > 0 /\ CopyReach(r, m, {}) # StarCjs(m)
+\* export-star cycles: an ES module that reaches itself over export * edges
+StarCyc(m) == Kind(m) = "esm" /\ \E i \in Idx(m) : Body(m)[i].op = "star" /\ m \in StarReach({Body(m)[i].t}, {})
+\* the first member of an export-star cycle that the entry point's depth-first
+\* walk over static requests meets: where the cycle is ENTERED
+RECURSIVE Dfs(_, _)
+Dfs(todo, acc) ==     \* todo: sequence of modules still to visit; acc: visit order
+  IF todo = <<>> THEN acc
+  ELSE LET m == Head(todo) IN
+       IF \E i \in DOMAIN acc : acc[i] = m THEN Dfs(Tail(todo), acc)
+       ELSE Dfs((IF Kind(m) = "esm" THEN Requested(m) ELSE <<>>) \o Tail(todo), Append(acc, m))
+EntryOrder == Dfs(<<1>>, <<>>)
+StarCycEntered ==
+  LET cyc == {i \in DOMAIN EntryOrder : StarCyc(EntryOrder[i])} IN
+  IF cyc = {} THEN 0 ELSE EntryOrder[CHOOSE i \in cyc : \A j \in cyc : i <= j]
+\* how a module outside the cycle looks at the member through which the cycle
+\* is entered: that member re-exports a CommonJS/JSON leaf itself
+\* ("leafhere"), only another member does ("leafelsewhere"), nobody does
+StarCycFeatures ==
+  LET e == StarCycEntered IN
+  IF e = 0 THEN {}
+  ELSE LET cycle == {c \in StarReach({e}, {}) : Kind(c) = "esm" /\ e \in StarReach({c}, {})}     \* the members (e included)
+           \* c re-exports, from outside the cycle, something whose names are only known at run time
+           OutDyn(c) == \E i \in Idx(c) : /\ Body(c)[i].op = "star" /\ Body(c)[i].t \notin cycle
+                                          /\ (Kind(Body(c)[i].t) # "esm" \/ DynFallback(Body(c)[i].t))
+           how == IF OutDyn(e) THEN "leafhere"
+                  ELSE IF \E c \in cycle \ {e} : OutDyn(c) THEN "leafelsewhere" ELSE "static"
+           cls == IF StarCjs(e) # {} THEN "cjs" ELSE "esm" IN
+       UNION {{"starcyc:" \o Body(m)[i].op \o ">" \o how \o ":" \o cls :
+                 i \in {j \in Idx(m) : Body(m)[j].t = e /\ Body(m)[j].op \in {"rns", "rd", "star", "starns", "rex", "dyn"}}} :
+              m \in {q \in 1..NM : Kind(q) = "esm" /\ ~StarCyc(q)}}
+\* importers of one CommonJS module in both interop modes: which of the two
+\* bodies runs first (the requested one before the requesting one, otherwise
+\* the one the entry point's walk meets first), what the node-mode importer
+\* does with the module, and the module's shape
+OrdPos(m) == IF \E i \in DOMAIN EntryOrder : EntryOrder[i] = m THEN CHOOSE i \in DOMAIN EntryOrder : EntryOrder[i] = m ELSE 99
+FirstOf(b, n) == IF b \in Closure(n) THEN "babel" ELSE IF n \in Closure(b) THEN "node"
+                 ELSE IF OrdPos(b) < OrdPos(n) THEN "babel" ELSE "node"
+ModeFeatures ==
+  UNION {{"mode:" \o FirstOf(w[1], w[2]) \o "-first:" \o Body(w[2])[i].op \o (IF Body(w[2])[i].x = "default" THEN ".default" ELSE "") \o ">" \o kinds[w[3]] :
+            i \in {j \in Idx(w[2]) : Body(w[2])[j].t = w[3]}} :
+         w \in {w \in (1..NM) \X (1..NM) \X (1..NM) :
+              /\ Kind(w[3]) = "cjs" /\ Babel(w[1]) /\ Kind(w[2]) = "esm" /\ ~Babel(w[2])
+              /\ \E i \in Idx(w[1]) : Body(w[1])[i].t = w[3] /\ Body(w[1])[i].op \in {"rd", "rns", "rex", "starns", "star"}
+              /\ \E i \in Idx(w[2]) : Body(w[2])[i].t = w[3]}}
+
 Features ==
+  StarCycFeatures \cup ModeFeatures \cup
   UNION {UNION {{w \o ":" \o Body(m)[i].op \o ">" \o ClassOf(Body(m)[i].t) : w \in WrapOf(m)} :
                 i \in {j \in Idx(m) : Body(m)[j].t # 0}} : m \in 1..NM}
   \cup (IF AmbStarCjs THEN {"amb:star>cjs"} ELSE {})
@@ -750,7 +856,9 @@ Features ==
 
 RealKinds == [m \in 1..NM |-> Kind(m)]
 CaseRec == [spec |-> "ModuleSem", kinds |-> RealKinds, bodies |-> bodies, trace |-> rs.trace,
-            threw |-> rs.threw, ns |-> ExpNs, req |-> ExpReq, nsStatic |-> ExpNsStatic, feat |-> Features]
+            threw |-> rs.threw, ns |-> ExpNs, req |-> ExpReq, nsStatic |-> ExpNsStatic, feat |-> Features,
+            modes |-> [m \in 1..NM |-> IF Babel(m) THEN "babel" ELSE "node"],
+            cycdyn |-> {MName[m] : m \in CycDynReaders}, lateCopy |-> LateCopy(rs)]
 \* Mode "gen": the graph alone (raw kinds, so that it can be given back in Mode "run")
 GraphRec == [spec |-> "ModuleSem.graph", kinds |-> kinds, bodies |-> bodies, feat |-> Features]
 
